@@ -155,7 +155,73 @@ theorem nb_count (pb : Problem) (g : Nat → Nat → Int) {y x : Nat} (hy : y < 
   have t5 : (y : Int).toNat = y := by omega
   have t6 : (x : Int).toNat = x := by omega
   simp only [gv, t1, t2, t3, t4, t5, t6, Bool.and_eq_true, decide_eq_true_eq]
-  trace_state
-  sorry
+  have e1 : (if g (y - 1) x ≠ 0 ∧ 0 ≤ (y : Int) - 1 ∧ (y : Int) - 1 < pb.height ∧ 0 ≤ (x : Int) ∧ (x : Int) < pb.width
+      then 1 else 0) = (if 0 < y ∧ g (y - 1) x ≠ 0 then 1 else 0) :=
+    if_congr ⟨fun ⟨a, _⟩ => ⟨by omega, a⟩, fun ⟨_, b⟩ => ⟨b, by omega⟩⟩ rfl rfl
+  have e2 : (if g (y + 1) x ≠ 0 ∧ 0 ≤ (y : Int) + 1 ∧ (y : Int) + 1 < pb.height ∧ 0 ≤ (x : Int) ∧ (x : Int) < pb.width
+      then 1 else 0) = (if y + 1 < pb.height ∧ g (y + 1) x ≠ 0 then 1 else 0) :=
+    if_congr ⟨fun ⟨a, _⟩ => ⟨by omega, a⟩, fun ⟨_, b⟩ => ⟨b, by omega⟩⟩ rfl rfl
+  have e3 : (if g y (x - 1) ≠ 0 ∧ 0 ≤ (y : Int) ∧ (y : Int) < pb.height ∧ 0 ≤ (x : Int) - 1 ∧ (x : Int) - 1 < pb.width
+      then 1 else 0) = (if 0 < x ∧ g y (x - 1) ≠ 0 then 1 else 0) :=
+    if_congr ⟨fun ⟨a, _⟩ => ⟨by omega, a⟩, fun ⟨_, b⟩ => ⟨b, by omega⟩⟩ rfl rfl
+  have e4 : (if g y (x + 1) ≠ 0 ∧ 0 ≤ (y : Int) ∧ (y : Int) < pb.height ∧ 0 ≤ (x : Int) + 1 ∧ (x : Int) + 1 < pb.width
+      then 1 else 0) = (if x + 1 < pb.width ∧ g y (x + 1) ≠ 0 then 1 else 0) :=
+    if_congr ⟨fun ⟨a, _⟩ => ⟨by omega, a⟩, fun ⟨_, b⟩ => ⟨b, by omega⟩⟩ rfl rfl
+  rw [e1, e2, e3, e4]
+  ac_rfl
+
+theorem eval_count_nb (hg : Agree pb σ g) {y x : Nat} (hy : y < pb.height) (hx : x < pb.width) :
+    eval σ (countTrueE (nbNe pb y x)) = some (.i ((trianglesAround pb g y x : Nat) : Int)) := by
+  have hm : (nbNe pb y x).map (eval σ) =
+      ((neighbours pb.height pb.width (y : Int) (x : Int)).map fun q => decide (gv g q.1 q.2 ≠ 0)).map
+        fun b => some (.b b) := by
+    unfold nbNe
+    rw [List.map_map, List.map_map]
+    apply List.map_congr_left
+    intro q hq
+    obtain ⟨h1, h2, h3, h4⟩ := Cspuz.Proofs.C12Conv.mem_neighbours hq
+    have hin : inB pb q.1 q.2 = true := by simp [inB, h1, h2, h3, h4]
+    simp only [Function.comp]
+    rw [eval_cmp rfl (eval_cv hg hin) (eval_litI σ 0), cmpOp_ne]
+    simp [bne, beq_eq_decide]
+  rw [eval_countTrueE _ hm, List.count_eq_countP, List.countP_map, ← nb_count pb g hy hx]
+  congr 4
+  funext q; simp
+
+theorem blackList_sem (hg : Agree pb σ g) {p : Nat × Nat} (hy : p.1 < pb.height) (hx : p.2 < pb.width) :
+    (∀ e ∈ blackList pb p, eval σ e = some (.b true)) ↔
+      ∀ v, val pb p.1 p.2 = some v → g p.1 p.2 = 0 ∧ (0 ≤ v → (trianglesAround pb g p.1 p.2 : Int) = v) := by
+  unfold blackList
+  cases hv : val pb p.1 p.2 with
+  | none => simp
+  | some v =>
+    have h0 : eval σ (.node .eq [.ivar (p.1 * pb.width + p.2), .litI 0]) = some (.b (decide (g p.1 p.2 = 0))) := by
+      rw [eval_cmp rfl (eval_ivar σ _) (eval_litI σ 0), cmpOp_eq, beq_eq_decide, hg _ hy _ hx]
+    have h1 : eval σ (.node .eq [countTrueE (nbNe pb p.1 p.2), .litI v])
+        = some (.b (decide (((trianglesAround pb g p.1 p.2 : Nat) : Int) = v))) := by
+      rw [eval_cmp rfl (eval_count_nb hg hy hx) (eval_litI σ v), cmpOp_eq, beq_eq_decide]
+    by_cases hv0 : v ≥ 0
+    · simp [hv0, h0, h1]
+    · simp [hv0, h0]
+
+/-- The constraints of the posted program, read on the grid. -/
+theorem closed_sem (hg : Agree pb σ g) :
+    (∀ e ∈ closedCs pb, eval σ e = some (.b true)) ↔
+      (∀ y, y < pb.height → ∀ x, x < pb.width → ∀ v, val pb y x = some v →
+        g y x = 0 ∧ (0 ≤ v → (trianglesAround pb g y x : Int) = v)) ∧
+      (∀ y : Nat, y ≤ pb.height → ∀ x : Nat, x ≤ pb.width → PointOK pb g y x) := by
+  unfold closedCs
+  simp only [List.mem_append, List.mem_flatten, List.mem_map]
+  constructor
+  · intro h
+    refine ⟨fun y hy x hx => (blackList_sem hg (p := (y, x)) hy hx).1 fun e he =>
+        h e (Or.inl ⟨_, ⟨(y, x), C11Norinori.mem_cellsOf.2 ⟨hy, hx⟩, rfl⟩, he⟩),
+      fun y hy x hx => (pointList_sem hg (y, x)).1 fun e he =>
+        h e (Or.inr ⟨_, ⟨(y, x), C11Norinori.mem_cellsOf.2 ⟨Nat.lt_succ_of_le hy, Nat.lt_succ_of_le hx⟩, rfl⟩, he⟩)⟩
+  · rintro ⟨h1, h2⟩ e (⟨l, ⟨p, hp, rfl⟩, he⟩ | ⟨l, ⟨p, hp, rfl⟩, he⟩)
+    · obtain ⟨hy, hx⟩ := C11Norinori.mem_cellsOf.1 hp
+      exact (blackList_sem hg hy hx).2 (h1 p.1 hy p.2 hx) e he
+    · obtain ⟨hy, hx⟩ := C11Norinori.mem_cellsOf.1 hp
+      exact (pointList_sem hg p).2 (h2 p.1 (Nat.le_of_lt_succ hy) p.2 (Nat.le_of_lt_succ hx)) e he
 
 end Cspuz.Proofs.C11ShakashakaP3
